@@ -91,7 +91,15 @@ func (e *Engine) callRefValue(ref callRef, st *State, t types.Type) Val {
 		}
 		return BoolV{or(gs...)}
 	}
+	saveOut := e.mergeOut
+	e.mergeOut = st // merged backing arrays of slice results live in the state the clause is evaluated in
+	defer func() { e.mergeOut = saveOut }()
 	acc := e.symbolic(st, t, "nocall_"+clean(ref.callee))
+	if ref.last {
+		for i, j := 0, len(evs)-1; i < j; i, j = i+1, j-1 {
+			evs[i], evs[j] = evs[j], evs[i]
+		}
+	}
 	for i := len(evs) - 1; i >= 0; i-- {
 		if ref.idx < len(evs[i].Res) {
 			acc = e.mergeVal(evs[i].Guard, evs[i].Res[ref.idx], acc, st, st, "result_of")
